@@ -31,12 +31,12 @@ PROPS = {
         budget_s=dict(quick=45, thorough=1500),
         rule=("one run = 1..60 generated values (records over a small field-name and string alphabet, nested records inside arrays/maps/unions, named types, type values) rendered as ZSON, ZJSON, VNG "
               "and ZNG (compression, frame threshold 1..default, end-of-stream markers, reader threads 1/2/3/8, read size, validation, 1..n-byte fragments drawn) and one program from a grammar over "
-              "keyword/glob/regexp searches, field==literal, literal in field, is(), and/or/not, typeof/typeunder/nameof/fields/len/kind, cut, count() by <type function>; each encoding is run through "
-              "runtime.CompileQuery and compared with the ZSON run (sequence, or multiset for aggregations; error vs no error). Encodings that do not reproduce the values themselves (codec round trip) "
+              "keyword/glob/regexp searches (keywords include field names, which a search also matches), field==literal, literal in field, is(), and/or/not, typeof/typeunder/nameof/fields/len/kind, cut, count() by <type function>; each encoding is run through "
+              "runtime.CompileQuery and compared with the run over the values themselves (a reader handing out the generated values, no encoding): sequence, or multiset for aggregations; error vs no error. Encodings that do not reproduce the values themselves (codec round trip) "
               "are skipped for that run and counted. The multi-thread ZNG scanner's parser and workers are scheduled by the simulator. Non-trivial = at least one other encoding compared and a "
               "non-empty reference result; distinct = distinct hash of all draws."),
         real=REAL_STREAM + ["compiler, optimizer (filter push-down into the scanner), kernel buffer filter, sam runtime"], stub=STUB_STREAM,
-        assumptions=["the ZSON rendering of the generated values is the reference input; a format that does not round-trip a value set is excluded for that run (that is C01/C02/C03's subject)",
+        assumptions=["the reference input is the un-encoded value sequence; a format that does not round-trip a value set is excluded for that run (that is C01/C02/C03's subject)",
                      "programs outside the grammar are not covered"],
     ),
     "C01": dict(
@@ -81,8 +81,8 @@ PROPS = {
         engine="lakesim", level="exploration", gomaxprocs=1, env={"GODEBUG": "asyncpreemptoff=1"},
         budget_s=dict(quick=60, thorough=1500),
         rule=("one run = a seeded pool whose records carry a field f with a drawn type mix (few/constant/many distinct strings, ints, uint+float+int mixed, several types, nulls, absent), 1..4 loads "
-              "(some beyond 256 distinct values), then the auto-vectorised shapes count() by <field> and sum(<field>) at parallelism 1,2,3 evaluated with no vector copies, with some objects "
-              "vectorised (planner must fall back), with all vectorised, and after removing the vectors again; results compared as multisets, an error only with vectors is a violation. "
+              "(some beyond 256 distinct values), then the auto-vectorised shapes count() by <field> and sum(<field>), bare and behind a filter (d > 0 | sum(d), <key> >= 2 | sum(u), ...), at parallelism 1 and one of 2, 3, evaluated with no vector copies, with some objects "
+              "vectorised (planner must fall back), with all vectorised, and then either after removing the vectors again or after the history went on (a vectorised object deleted, new data loaded without vectors; compared with the run after all remaining vectors are removed); results compared as multisets, an error only with vectors is a violation. "
               "Non-trivial = the all-vectors configuration was reached; distinct = distinct hash of all draws."),
         real=REAL_LAKE, stub=STUB_LAKE,
         assumptions=["only the lake half of the property is decided (adding/removing vector copies never changes a result); agreement of the two runtimes over the whole vectorisable operator subset is a pure differential without schedule or fault and is not claimed",
@@ -104,7 +104,7 @@ PROPS = {
         budget_s=dict(quick=90, thorough=1800),
         rule=("one run = a seeded sequential setup (0..14 commits on main, maybe a child branch; crosses the journal's >10-entries snapshot rule in a fifth of the runs), then 2..4 clients "
               "(separate lake handles and caches on one storage; object-store stub or the real file engine) each issuing 1..3 operations out of load / delete / delete-where / compact / "
-              "vector add / query / merge / revert / create,rename,drop pool / create,drop branch / list pools, interleaved at every metadata storage operation by the seeded scheduler "
+              "vector add / query / merge / revert / create,rename,drop pool / create,drop branch / list pools (a fifth of the runs draw mostly pool-level operations), GOMAXPROCS drawn from {1,2,4}, interleaved at every metadata storage operation by the seeded scheduler "
               "(policies: bounded preemption budget <= 6, uniform, stall-one-client, changing priorities), then one sequential load per client. Oracle: porcupine linearizability of the "
               "recorded history (stamps = scheduler step numbers) against a sequential lake model whose commit effects are read post hoc from the immutable commit objects; "
               "cold read-only replay of every branch after every completed operation (only at instants with no metadata put open); chain/name invariants at the end. "
